@@ -18,7 +18,7 @@ ASSUMPTIONS = ['no fabric stop in this stratum (the stop signal uses priority 1 
 PROBES = ['fabric_get_with_3_or_more_items', 'fabric_get_with_priority_tie']
 PLAN = {
   'quick': {'strata': {'bursts': 4000}, 'wall_s': 300, 'chunk': 50, 'min_conclusive': 1000},
-  'thorough': {'strata': {'bursts': 120000}, 'wall_s': 900, 'chunk': 100, 'min_conclusive': 10000},
+  'thorough': {'strata': {'bursts': 120000}, 'wall_s': 900, 'chunk': 100, 'min_conclusive': 1000},
 }
 
 
@@ -40,7 +40,7 @@ def generate(seed, stratum, tier):
     for _ in range(rng.randrange(2, 6)):
       c0.append(['publish', rng.choice(sigs), rng.choice(prios)])
     c0.append(['start'])
-  for _ in range(rng.randrange(3, 13)):
+  for _ in range(common.span(rng, 3, 13, common.deep(rng), 4)):
     clients[rng.randrange(nclients)].append(['publish', rng.choice(sigs), rng.choice(prios)])
     if rng.random() < 0.08:
       clients[0].append(['start'])     # start() on a running fabric must change nothing
